@@ -1169,7 +1169,7 @@ Definition En (a:positive) (n:list positive) (d:tdef) := {| e_app := a; e_name :
 	}
 	n := 420
 	if c.Thorough() {
-		n = 9000
+		n = 6000
 	}
 	if c.Search {
 		n *= 3
